@@ -75,6 +75,8 @@ class Driver:
         self.pool.on_process = self._on_process
         import cylc.flow.commands as _cm
         _cm.sleep = lambda *_a: None   # reload waits with real sleeps between its polling rounds
+        TR.ds_client = None
+        TR.ds_want = bool(self.policy.get("datastore"))
         TR.emit("boot", restart=bool(schd.is_restart), n=self.incarnation, sync=instrument.sync_proj(schd))
         if schd.is_restart:
             await self._restart_prelude()
@@ -434,6 +436,11 @@ async def run_plan(drv: Driver, plan: dict):
             try:
                 while cmds and cmds[0][0] <= iters:
                     _, name, kw = cmds.pop(0)
+                    if name == "__rewrite_flow__":
+                        # the user edits flow.cylc in the run directory (picked up by the next reload)
+                        Path(drv.home, "cylc-run", drv.name, "flow.cylc").write_text(kw["text"])
+                        TR.emit("flow_edited", removed=kw.get("removed"))
+                        continue
                     await drv.cmd(name, **kw)
                 if stop and not stop_requested and iters >= stop["iter"]:
                     if stop.get("sync"):
